@@ -176,6 +176,26 @@ pub fn programs() -> Vec<(&'static str, String)> {
             }
         }
     }
+    // ---- `_` is an ordinary identifier for the scanner, the parser and the checker: a program may
+    //      read it after a pattern bound it
+    for body in [
+        "let _ = x; _",
+        "let _ = x + 1u8; _ + x",
+        "match x { _ => _ }",
+        "match (x, true) { (_, true) => _, (_, false) => 0u8 }",
+        "let (_, y) = (x, 1u8); _ + y",
+        "let (y, _) = (1u8, x); _ + y",
+        "let mut n = 0u8; for _ in [x, x] { n = n + _; } n",
+        "let mut n = 0u8; for (_, v) in [(x, 1u8), (2u8, x)] { n = n + _ + v; } n",
+        "let mut n = 0u8; for (_, v) in join_iter([(x, 1u8)], [(x, 2u8)]) { n = n + _.1 + v.1; } n",
+        "let S { a: _, b } = S { a: x, b: true }; if b { _ } else { 0u8 }",
+        "match E::B(x) { E::B(_) => _, E::A => 0u8, E::C(_, _) => 1u8 }",
+        "match E::C(x, true) { E::C(_, b) => if b { _ } else { 0u8 }, _ => 2u8 }",
+        "let _ = [x; N]; _[1]",
+        "let _ = f(x); f(_)",
+    ] {
+        extra.push(("slot grid: wildcard read as a variable", format!("{PRE}pub fn main(x: u8) -> u8 {{ {body} }}\n")));
+    }
     out.extend(extra);
     out
 }
